@@ -27,6 +27,9 @@ import (
 type eventCh[T any] struct {
 	id int
 	ch chan<- T
+	// closeEventCh is closed when the subscriber is leaving, so that an
+	// in-progress delivery does not wait for it any longer.
+	closeEventCh chan struct{}
 }
 
 // Batcher is a one to many event batcher. It batches events and sends them to
@@ -83,14 +86,19 @@ func (b *Batcher[K, T]) subscribe(ctx context.Context, ch chan<- T) {
 	id := b.currentID
 	b.currentID++
 	bufferedCh := make(chan T, 50)
+	closeEventCh := make(chan struct{})
 	b.eventChs = append(b.eventChs, &eventCh[T]{
-		id: id,
-		ch: bufferedCh,
+		id:           id,
+		ch:           bufferedCh,
+		closeEventCh: closeEventCh,
 	})
 
 	b.wg.Add(1)
 	go func() {
 		defer func() {
+			// Unblock a delivery that is waiting for this subscriber's buffer
+			// while holding the lock, or the lock below would never be acquired
+			close(closeEventCh)
 			verifPoint("fwd.exit")
 			b.lock.Lock()
 			close(ch)
@@ -131,6 +139,7 @@ func (b *Batcher[K, T]) execute(i *item[K, T]) {
 		verifPoint("fanout.send")
 		select {
 		case ev.ch <- i.value:
+		case <-ev.closeEventCh:
 		case <-b.closeCh:
 		}
 	}
